@@ -214,16 +214,22 @@ Definition no_pct (o : url_obs) : bool :=
   forallb (fun '(k, v) => np k && match v with Some v => np v | None => true end) (uo_query o) &&
   np (uo_frag o).
 
-Definition parse_ok (t : text) (r : res url_obs) (f1 f2 m1 m2 : res text) : bool :=
+(* host_valid: the host of the parsed URL is one the property speaks about - empty, an IP literal, or
+   a name whose IDNA (ToASCII) form is an RFC 3986 reg-name that ToUnicode accepts.  (The stdlib codec
+   does not apply the STD3 rules, so e.g. a full-width '@' or a Kelvin sign after 'xn--' encodes to
+   text that is no host name; such hosts are outside "valid host".) *)
+Definition parse_ok (host_valid : bool) (t : text) (r : res url_obs) (f1 f2 m1 m2 : res text) : bool :=
   match r with
   | Raise URLParseError => true                    (* the only failure allowed *)
   | Raise _ => false
   | Ok o =>
     if wf_ref true t then
-      match f1 with
-      | Ok t1 => match f2 with Ok t2 => text_eqb t1 t2 | Raise _ => false end
-      | Raise _ => true                            (* host not encodable by the IDNA codec: nothing claimed *)
-      end &&
+      (if host_valid then
+         match f1 with
+         | Ok t1 => match f2 with Ok t2 => text_eqb t1 t2 | Raise _ => false end
+         | Raise _ => true                          (* host not encodable by the IDNA codec: nothing claimed *)
+         end
+       else true) &&
       (if no_pct o
        then match m1, m2 with Ok a, Ok b => text_eqb a b | _, _ => false end
        else true)
